@@ -204,7 +204,16 @@ def run(repo: Repo, chk: Check, thorough: bool = False) -> None:
                 txt = norm(cond)
                 if ('.right' in txt or '.left' in txt) and ' is ' in txt and txt not in seen_conds:
                     seen_conds.add(txt)
-                    exempt = sorted({d[4:] for d in (dotted(a) or '' for a in ast.walk(cond)) if d.startswith('ast.') and d[4:] in opclasses})
+                    # operator classes named in the condition, directly or through a class / module constant (`self._ASSOCIATIVE_OPS`)
+                    mentioned: List[ast.AST] = [cond]
+                    dcls = repo.classes.get(DELIM)
+                    for a in ast.walk(cond):
+                        nm_ = a.attr if isinstance(a, ast.Attribute) and dotted(a.value) in ('self', 'cls', '_OperatorDelimiter') else a.id if isinstance(a, ast.Name) else None
+                        if nm_ and dcls is not None and nm_ in dcls.aliases:
+                            mentioned.append(dcls.aliases[nm_])
+                        elif nm_ and nm_ in init.mod.assigns:
+                            mentioned.append(init.mod.assigns[nm_])
+                    exempt = sorted({d[4:] for m_ in mentioned for d in (dotted(a) or '' for a in ast.walk(m_)) if d.startswith('ast.') and d[4:] in opclasses})
                     chk.ob('R15.3', f'{DELIM}.__init__ :: operand-side rule applies to every operator', not exempt,
                            'no operator class is exempted' if not exempt else
                            f'the right-operand rule is switched off for {exempt}: operators of equal precedence are not interchangeable '
